@@ -84,9 +84,10 @@ impl<'a> Lexer<'a> {
 
     pub(crate) fn next_token(&mut self) -> Lexeme {
         let start_pos = self.pos;
-        let first = self.bump().unwrap_or(EOF);
-        let kind = match first {
-            EOF => Kind::Eof,
+        let first = self.bump();
+        let kind = match first.unwrap_or(EOF) {
+            // only the real end of input is Eof; a literal NUL byte in the text is not
+            EOF if first.is_none() => Kind::Eof,
             _ if self.in_path.in_path() => self.path(),
             byte if is_ascii_whitespace(byte) => self.whitespace(),
             b'#' => self.comment(),
